@@ -103,7 +103,13 @@ pub fn check(r: &ExecResult, reducers: u32, mws: u32, subs: &[u32], added: (Opti
         if let Some(x) = added.2 {
             sb.push((x, false));
         }
+        let block_end = b.last().map(|c| c.i).unwrap_or(0);
         for (id, _) in sb {
+            // a subscriber whose unsubscribe() was invoked before this action's pipeline ended
+            // may or may not be part of it
+            if calls(r, "unsubscribe").any(|c| c.a as u32 == id && c.i < block_end) {
+                continue;
+            }
             if let Some(at) = registered_at(r, "add_subscriber", id, false) {
                 if at < call && notifies && !has("notify", id) {
                     f.push(fnd("ctx-subscriber-left-out", format!("subscriber {} was registered before dispatch({}) but was not notified", id, a)));
@@ -138,7 +144,7 @@ pub fn scenarios(tier: Tier) -> Vec<Scenario> {
                 added.1 = Some(2);
                 Some(Op::AddMiddleware(2))
             }
-            3 => {
+            3 | 4 => {
                 added.2 = Some(3);
                 Some(Op::AddSub { id: 3, gated: false, reads: false })
             }
@@ -147,13 +153,15 @@ pub fn scenarios(tier: Tier) -> Vec<Scenario> {
         if let Some(op) = reg_op {
             prog = prog.thread("registrar", vec![op, Op::Dispatch(Act::new(900))]);
         }
-        prog = prog.main(vec![
-            Op::AddSub { id: 1, gated: false, reads: false },
-            Op::AddSub { id: 2, gated: false, reads: false },
-            Op::SpawnAll,
-            Op::JoinAll,
-            Op::Stop,
-        ]);
+        let mut main = vec![Op::AddSub { id: 1, gated: false, reads: false }, Op::AddSub { id: 2, gated: false, reads: false }];
+        if registrar == 4 {
+            // swap: after a first notification, one subscriber leaves while another joins
+            // (the number of subscribers is the same before and after)
+            prog = prog.thread("leaver", vec![Op::Unsub(1)]);
+            main.extend([Op::Dispatch(Act::new(50)), Op::Quiesce]);
+        }
+        main.extend([Op::SpawnAll, Op::JoinAll, Op::Stop]);
+        prog = prog.main(main);
         // run-time registration touches the reducer / middleware lists from a second task:
         // no lock elision in those scenarios
         let o = if registrar == 1 || registrar == 2 { verif_rt::RunOpts::default() } else { opts_elide() };
@@ -165,6 +173,7 @@ pub fn scenarios(tier: Tier) -> Vec<Scenario> {
             add(1, 2, 1, true, 2);
             add(1, 1, 2, false, 2);
             add(1, 2, 3, true, 2);
+            add(0, 0, 4, false, 2);
         }
         Tier::Thorough => {
             for reg in 0..=3u8 {
@@ -178,6 +187,8 @@ pub fn scenarios(tier: Tier) -> Vec<Scenario> {
                 }
             }
             add(1, 2, 0, true, 3);
+            add(0, 0, 4, false, 3);
+            add(1, 1, 4, false, 2);
         }
     }
     v
